@@ -703,11 +703,13 @@ class Bus(ContainerBase, StoreClientMixin): # not a ContainerOperand
             ) -> tp.Iterator[tp.Tuple[tp.Hashable, tp.Any]]:
         '''Generator of index, value pairs, equivalent to Series.items(). Repeated to have a common signature as other axis functions.
         '''
-        yield from zip(self._series._index, self._series.values)
+        # use items() to load each Frame (observing max_persist) rather than exposing FrameDeferred
+        yield from self.items()
 
     def _axis_element(self,
             ) -> tp.Iterator[tp.Any]:
-        yield from self._series.values
+        for _, frame in self.items():
+            yield frame
 
     #---------------------------------------------------------------------------
     # dictionary-like interface; these will force loadings contained Frame
@@ -938,7 +940,7 @@ class Bus(ContainerBase, StoreClientMixin): # not a ContainerOperand
         '''
         if key not in self._series._index:
             return default
-        return self._series.__getitem__(key)
+        return self.__getitem__(key) # load the Frame if necessary
 
     #---------------------------------------------------------------------------
     @doc_inject()
